@@ -613,10 +613,54 @@ fn execute(plan: &Plan, prof: &Profile, sched_rng: &mut Rng, forced: Option<&[St
             }
         }
     }
-    if !prof.drops && !prof.timeouts && !prof.tx_fail {
+    // A genuine first response to a request that was NOT abandoned (its future neither dropped nor
+    // timed out before the delivery finished) must be accepted — whatever happened to other requests.
+    {
+        // (first idx) -> step at which its request was abandoned, if ever
+        let mut abandoned_at: BTreeMap<u8, usize> = BTreeMap::new();
+        for (tid, l) in logs.iter().enumerate() {
+            if tid == plan.tx_tid || tid == plan.rx_tid {
+                continue;
+            }
+            let mut first_of_reg: BTreeMap<u32, Option<u8>> = BTreeMap::new();
+            for o in l {
+                let f: Vec<&str> = o.op.split(',').collect();
+                let r: u32 = f.get(1).and_then(|x| x.parse().ok()).unwrap_or(0);
+                match f[0] {
+                    "al" => {
+                        first_of_reg.insert(r, None);
+                    }
+                    "pu" | "re" => {
+                        let g: Vec<&str> = o.out.split('.').collect();
+                        let idx = if g[0] == "ok" { g.get(2) } else if g[0] == "some" { g.get(3) } else { None };
+                        if let Some(i) = idx {
+                            let e = first_of_reg.entry(r).or_insert(None);
+                            if e.is_none() {
+                                *e = Some(i.parse().unwrap());
+                            }
+                        }
+                    }
+                    "df" | "po" | "dc" => {
+                        let gone = (f[0] == "df" && o.out == "ok") || (f[0] == "po" && o.out.starts_with("ready.err")) || (f[0] == "dc" && o.out == "ok");
+                        if gone {
+                            if let Some(Some(i)) = first_of_reg.get(&r) {
+                                abandoned_at.entry(*i).or_insert(o.start);
+                            }
+                        }
+                    }
+                    _ => {}
+                }
+            }
+        }
         for (k, o) in logs[plan.rx_tid].iter().enumerate() {
             if o.out != "processed" && sh.genuine.get(k).copied().unwrap_or(false) {
-                rep.fail(&format!("{}/response-rejected", prof.key), &format!("the response to an outstanding request was not accepted ({})", o.out), &line);
+                let idx = unhex(&o.op[3..]).get(17).copied().unwrap_or(0);
+                let abandoned = abandoned_at.get(&idx).map_or(false, |s| *s <= o.end);
+                // with deadlines in play a response may legitimately meet a slot that was re-queued for
+                // retransmission or already completed by an earlier copy: only judged without them
+                if !abandoned && !prof.timeouts && !prof.tx_fail {
+                    rep.fail(&format!("{}/response-rejected", prof.key), &format!("the response to an outstanding request was not accepted ({})", o.out), &line);
+                }
             }
         }
     }
